@@ -35,7 +35,7 @@ def grammar():
     return Grammar(
         atoms,
         arith=('+', '-', '*', '/'), cmp=('=', '!=', '<', '>='), conn=('and', 'or', 'implies', 'iff'),
-        funcs={'abs': ('N', 'N'), 'len': ('A', 'N'), 'sum': ('SET', 'N'), 'max': ('R', 'N'), 'bool': ('N', 'B'), 'str': ('N', 'S')},
+        funcs={'abs': ('N', 'N'), 'len': ('A', 'N'), 'sum': ('SET', 'N'), 'max': ('R', 'N'), 'min': ('A', 'N'), 'gcd': ('SET', 'N'), 'bool': ('N', 'B'), 'str': ('N', 'S')},
         quants=('forall', 'exists'), domains=('A', 'SET', 'R'),
         set_widths=(1, 2), range_flags=((False, False), (True, True)),
         inclusion=('A', 'SET', 'R'), index=True, eq_sorts=('N', 'B', 'S'),
@@ -218,7 +218,7 @@ def replay(w):
 def describe(tier):
     b = bounds(tier)
     return {
-        'rule': f"initial states: parser results for every Bool/Num/Str term with <= {b['nodes']} nodes (fields, alias fields, literals, 4 arithmetic / 4 comparison / 4 logical operators, abs len sum max bool str, sets, ranges, indexing, inclusion, both quantifiers) as expression and predicate, and the C12 property family; transitions: simplify, split_and elements, refactor_reference halves, both replacements, negate, join with 6 predicates, canonical_form outputs; BFS to depth {b['depth']} with states deduplicated on the typed lift; the per-node invariant is evaluated in every state.",
+        'rule': f"initial states: parser results for every Bool/Num/Str term with <= {b['nodes']} nodes (fields, alias fields, literals, 4 arithmetic / 4 comparison / 4 logical operators, abs len sum max min gcd bool str, sets, ranges, indexing, inclusion, both quantifiers) as expression and predicate, and the C12 property family; transitions: simplify, split_and elements, refactor_reference halves, both replacements, negate, join with 6 predicates, canonical_form outputs; BFS to depth {b['depth']} with states deduplicated on the typed lift; the per-node invariant is evaluated in every state.",
         'bounds': b,
         'exhaustive': True,
         'assumptions': ['invariant table in hplmc/ref/types.py is the reference; bound-variable use is checked with the weakest reading (non-empty intersection with the element type)'],
